@@ -403,6 +403,111 @@ def grammar_scenario():
   return scenario
 
 
+# ----------------------------------------------------------------- consumers of str(q)
+STUBQ = """
+class StubQ:
+  def __init__(self, name):
+    self.name = name
+  def __str__(self):
+    return 'STR<' + self.name + '>'
+  def __call__(self, x):
+    return x
+"""
+QCONF_CLASSES = [("qkeras.qlayers", "QDense"), ("qkeras.qlayers", "QActivation"),
+                 ("qkeras.qconvolutional", "QConv1D"), ("qkeras.qconvolutional", "QConv2D"),
+                 ("qkeras.qconvolutional", "QDepthwiseConv2D"), ("qkeras.qmac", "QScaleShift"),
+                 ("qkeras.qpooling", "QAveragePooling2D"), ("qkeras.qpooling", "QGlobalAveragePooling2D"),
+                 ("qkeras.qrecurrent", "QSimpleRNN"), ("qkeras.qrecurrent", "QLSTM"), ("qkeras.qrecurrent", "QGRU"),
+                 ("qkeras.qconv2d_batchnorm", "QConv2DBatchnorm"),
+                 ("qkeras.qdepthwiseconv2d_batchnorm", "QDepthwiseConv2DBatchnorm")]
+
+
+def qconf_scenario(modname, clsname):
+  """<layer>.get_quantization_config (what get_quantization_dictionary / print_qmodel_summary show, and what AutoQKeras
+  writes out): every entry that is the text of a quantizer is str() of the quantizer the layer holds under THAT name.
+  Quantizers are instances of an interpreter-level stub class whose __str__ is 'STR<constructor parameter>', so a value
+  'STR<x>' must sit under the key x; non-quantizer entries named after a constructor parameter are str(parameter)."""
+  def scenario(ip):
+    from . import c13
+    s = Scen()
+    SQ = ip.load_source("c10_stubq", STUBQ).env.vars["StubQ"]
+    cls = ip.get_module(modname).env.vars[clsname]
+    ip.overrides["qkeras.quantizers::get_quantizer"] = c13.gq_contract
+    ip.overrides["qkeras.qlayers::get_auto_range_constraint_initializer"] = lambda ip_, fv, a, k: (a[1], a[2])
+    init, _ = cls.lookup("__init__")
+    params = [a.arg for a in init.node.args.args[1:]] + [a.arg for a in init.node.args.kwonlyargs]
+    kw, stubs = {}, set()
+    for p_ in params:
+      if p_.endswith("_quantizer") or p_ in ("quantizer", "activation", "recurrent_activation"):
+        if clsname == "QAdaptiveActivation" and p_ == "activation":
+          kw[p_] = "quantized_bits"
+          continue
+        kw[p_] = ip.call(SQ, [p_], {})
+        stubs.add(p_)
+      elif p_ in c13.CONCRETE:
+        kw[p_] = c13.CONCRETE[p_]
+      else:
+        kw[p_] = Term("v:" + p_)
+    if init.node.args.kwarg is not None:
+      kw["name"] = Term("v:name")
+    ip.term_hooks = {"get_config": lambda ip_, recv, a, k: dict(recv.kw) if isinstance(recv, Term) else {}}
+    r = run_call(ip, cls, [], kw)
+    s.claim("constructs", r[0] == "return")
+    if r[0] != "return":
+      s.info["raised"] = "constructor: %s" % (r[1],)
+      return s
+    if "Depthwise" in clsname and "filters" not in r[1].attrs:
+      # K1': the stock (tf_keras 2.x) DepthwiseConv2D constructor passes filters=None to Conv2D; the Keras 3 of the pinned
+      # environment has no such attribute (get_quantization_config raises AttributeError there: environment, not qkeras)
+      r[1].attrs["filters"] = None
+    rc = run_call(ip, ip.getattr(r[1], "get_quantization_config"), [])
+    s.claim("no_raise", rc[0] == "return")
+    if rc[0] != "return":
+      s.info["raised"] = "get_quantization_config: %s" % (rc[1],)
+      return s
+    cfg = rc[1]
+    if isinstance(cfg, str):                       # QActivation / QAdaptiveActivation return the bare text
+      cfg = {"activation": cfg}
+    s.claim("is_dict", isinstance(cfg, dict))
+    if not isinstance(cfg, dict):
+      return s
+    wrong, seen = [], set()
+    for k_, v_ in cfg.items():
+      if isinstance(v_, str) and v_.startswith("STR<"):
+        seen.add(v_[4:-1])
+        if v_[4:-1] not in (k_, k_[:-len("_internal")] if k_.endswith("_internal") else k_):
+          wrong.append("%s: %s" % (k_, v_))
+      elif k_ in stubs:
+        wrong.append("%s: %r is not the text of the quantizer" % (k_, v_))
+    if wrong:
+      s.info["raised"] = "; ".join(wrong)
+    s.claim("each_quantizer_under_its_own_name", not wrong)
+    s.claim("lists_a_quantizer", bool(seen) or clsname == "QAdaptiveActivation")
+    return s
+  return scenario
+
+
+def qdict_scenario():
+  """autoqkeras.utils.get_quantization_dictionary: one entry per layer that offers get_quantization_config, keyed by the
+  layer's name, holding exactly what the layer returned."""
+  def scenario(ip):
+    s = Scen()
+    f = ip.find("qkeras/autoqkeras/utils.py::get_quantization_dictionary")
+    c1, c2 = {"kernel_quantizer": "K1"}, "quantized_relu(4)"
+    l1 = Obj(ExtClass("QDense"), {"name": "d1", "get_quantization_config": Builtin("gqc", lambda ip_: c1)})
+    l2 = Obj(ExtClass("Flatten"), {"name": "fl"})
+    l3 = Obj(ExtClass("QActivation"), {"name": "a1", "get_quantization_config": Builtin("gqc", lambda ip_: c2)})
+    r = run_call(ip, f, [Obj(ExtClass("Model"), {"layers": [l1, l2, l3]})])
+    s.claim("no_raise", r[0] == "return")
+    if r[0] != "return":
+      s.info["raised"] = str(r[1])
+      return s
+    d = r[1]
+    s.claim("entries", isinstance(d, dict) and list(d.keys()) == ["d1", "a1"] and d["d1"] is c1 and d["a1"] is c2)
+    return s
+  return scenario
+
+
 def literals_scenario():
   def scenario(ip):
     s = Scen()
@@ -447,6 +552,13 @@ def cases(tier):
                                "repetition) over code points up to 0x2FFFF"], term_mode=True))
   out.append(Case(PROP, "qkeras/safe_eval.py::safe_eval", "dispatch", safe_eval_scenario(), replay_kind=None,
                   assumptions=ASSUME))
+  for m_, c_ in QCONF_CLASSES:
+    out.append(Case(PROP, "%s.py::%s.get_quantization_config" % (m_.replace(".", "/"), c_), "own_names", qconf_scenario(m_, c_),
+                    replay_kind=None, term_mode=True,
+                    assumptions=["quantizers are instances of an interpreter-level stub class (only str() is used)",
+                                 "K1: Keras base-class constructors store their keyword arguments (term mode)"]))
+  out.append(Case(PROP, "qkeras/autoqkeras/utils.py::get_quantization_dictionary", "three_layers", qdict_scenario(),
+                  replay_kind=None, assumptions=[]))
   out.append(Case(PROP, "qkeras/safe_eval.py::GetArg", "literals", literals_scenario(), replay_kind=None, assumptions=ASSUME,
                   bounded="GetArg executed concretely on every literal of a fixed grammar (%d literals: ints, floats as "
                           "printed by str(), True/False/None, quoted names, space-separated number lists); exhaustive over "
